@@ -365,7 +365,7 @@ fn value(rng: &mut Rng) -> Vec<u8> {
         3 => vec![0, 255, 36, 42],
         4 => vec![b'x'; rng.range(40, 90) as usize],
         5 => b"$3\r\nGET\r\n".to_vec(),
-        6 if rng.chance(1, 6) => vec![b'B'; *rng.pick(&[8191usize, 8192, 8193, 20_000])], // around / above read_buffer_size
+        6 if rng.chance(1, 25) => vec![b'B'; *rng.pick(&[8191usize, 8192, 8193, 12_000])], // around / above read_buffer_size
         _ => (0..rng.range(1, 12)).map(|_| rng.below(256) as u8).collect(),
     }
 }
@@ -408,9 +408,11 @@ fn segmentation(rng: &mut Rng, stream: &[u8], boundaries: &[usize]) -> Vec<Vec<u
     if n < 2 {
         return vec![stream.to_vec()];
     }
-    match rng.below(8) {
+    // (long streams are not cut byte by byte: the op line and the model's run time grow out of proportion)
+    match if n > 1500 { 2 + rng.below(6) } else { rng.below(8) } {
         0 => vec![stream.to_vec()],
         1 => (0..n).map(|i| vec![stream[i]]).collect(),
+        2 if n > 1500 && rng.chance(1, 2) => vec![stream.to_vec()],
         2 => cut(stream, boundaries), // one command per segment
         3 => {
             // cuts just around frame boundaries / inside headers
@@ -454,6 +456,18 @@ fn config(rng: &mut Rng) -> Cfg {
         batch_threshold: *rng.pick(&[0usize, 1, 2, 2, 6, usize::MAX]),
         read_size,
         max_buffer,
+    }
+}
+
+/// a frame of many kilobytes read a few bytes at a time is re-parsed at every read (quadratic, in the
+/// real handler and in the model alike): such cases keep a read size of at least 64
+fn tame(cfg: &mut Cfg, cmds: &[Vec<Vec<u8>>]) {
+    let biggest = cmds.iter().flat_map(|c| c.iter().map(|a| a.len())).max().unwrap_or(0);
+    if biggest > 2000 && cfg.read_size < 64 {
+        cfg.read_size = 64;
+        if cfg.max_buffer < 1_000_000 {
+            cfg.max_buffer = 1_000_000;
+        }
     }
 }
 
@@ -766,9 +780,9 @@ fn check_wellformed(cx: &mut Cx, cfg: &Cfg, cmds: &[Vec<Vec<u8>>], segs: &[Vec<u
 
 fn gen_pipeline(rng: &mut Rng) -> (Vec<Vec<Vec<u8>>>, Vec<u8>, Vec<usize>) {
     let mut depth = *rng.pick(&[1u64, 2, 2, 3, 5, 6, 7, 12]);
-    if rng.chance(1, 40) {
+    if rng.chance(1, 60) {
         // very deep pipelines (internal batch / drain bounds, several reads of read_size)
-        depth = *rng.pick(&[64u64, 127, 128, 129, 130, 200, 255, 256, 257, 300, 513, 1000, 1025, 2049]);
+        depth = *rng.pick(&[64u64, 127, 128, 129, 130, 200, 255, 256, 257, 300, 513]);
     }
     let mut in_tx = false;
     let mut cmds = Vec::new();
@@ -1278,6 +1292,7 @@ fn any_case(cx: &mut Cx, rng: &mut Rng, variants: &[String]) {
     if in_tx {
         cmds.push(vec![b"EXEC".to_vec()]);
     }
+    tame(&mut cfg, &cmds);
     let mut stream = Vec::new();
     let mut bounds = Vec::new();
     for f in cmd_frames(&cmds) {
@@ -1463,7 +1478,7 @@ fn check_write(cx: &mut Cx, cfg: &Cfg, cmds: &[Vec<Vec<u8>>], junk: Option<&[u8]
 fn write_case(cx: &mut Cx, rng: &mut Rng) {
     let mut cfg = config(rng);
     if rng.chance(2, 3) {
-        cfg.max_buffer = 1_000_000;
+        cfg.max_buffer = 1_000_000.max(cfg.read_size);
     }
     let depth = *rng.pick(&[1u64, 2, 3, 5, 8, 12]);
     let mut in_tx = false;
@@ -1474,6 +1489,7 @@ fn write_case(cx: &mut Cx, rng: &mut Rng) {
     if in_tx {
         cmds.push(vec![b"EXEC".to_vec()]);
     }
+    tame(&mut cfg, &cmds);
     let mut stream = Vec::new();
     let mut bounds = Vec::new();
     for f in cmd_frames(&cmds) {
@@ -1590,7 +1606,37 @@ fn pipeline_conn(cmds: &[Vec<&[u8]>], one_segment: bool) -> Conn {
     Conn { segs, fail: None }
 }
 
+/// the OTHER buffer pool of the tree (`redis::BufferPool`, resp_optimized.rs: the synchronous twin of
+/// BufferPoolAsync, public API, not wired into the server): a released buffer comes back empty
+fn sync_pool_probe(cx: &mut Cx) {
+    use bytes::BufMut;
+    for size in [1usize, 2, 3] {
+        let pool = redis_sim::redis::BufferPool::new(size, 64);
+        let mut held = Vec::new();
+        for i in 0..size + 1 {
+            let mut b = pool.acquire();
+            if !b.is_empty() {
+                cx.out.violation("C04:cross-connection:stale-buffer:sync-pool", "redis::BufferPool::acquire handed out a buffer that is not empty", json!({"pool_size": size, "acquire": i, "len": b.len()}));
+            }
+            b.put_slice(b"*2\r\n$3\r\nGET\r\n$5\r\nab");
+            held.push(b);
+        }
+        for b in held {
+            pool.release(b);
+        }
+        for i in 0..size + 2 {
+            let b = pool.acquire();
+            if !b.is_empty() {
+                cx.out.violation("C04:cross-connection:stale-buffer:sync-pool", "redis::BufferPool hands out a released buffer with the previous owner's bytes still in it", json!({"pool_size": size, "acquire_after_release": i, "len": b.len()}));
+            }
+        }
+        cx.out.count("pooled:sync-pool-probe");
+    }
+    let _ = redis_sim::redis::BufferPool::default().acquire();
+}
+
 fn pooled_corpus(cx: &mut Cx) {
+    sync_pool_probe(cx);
     let d = Cfg::default_like();
     let victim = pipeline_conn(&[vec![b"SET", b"k", b"v"], vec![b"GET", b"k"], vec![b"PING"]], true);
     // an earlier client disconnects in the middle of a frame, at every cut position
@@ -1628,7 +1674,8 @@ fn pooled_random(cx: &mut Cx, rng: &mut Rng) {
     let n = rng.range(2, 5) as usize;
     let mut conns = Vec::new();
     for _ in 0..n {
-        let (_, stream, bounds) = gen_pipeline(rng);
+        let (pcmds, stream, bounds) = gen_pipeline(rng);
+        tame(&mut cfg, &pcmds);
         let mut segs = segmentation(rng, &stream, &bounds);
         let mut fail = None;
         match rng.below(5) {
@@ -1686,29 +1733,209 @@ fn overflow_corpus(cx: &mut Cx) {
 /// VERY DEEP pipelines delivered in ONE read (read_size above the stream length), in reads of 8192,
 /// and one command per segment: every internal bound on commands per read / per flush is crossed
 fn deep_corpus(cx: &mut Cx) {
-    for depth in [64usize, 127, 128, 129, 130, 200, 256, 257, 300, 512, 1000, 1025, 1500, 4097] {
+    for depth in [64usize, 127, 128, 129, 130, 200, 256, 257, 300, 512, 1000, 1025, 2049] {
         for mode in 0..3 {
             let cmds: Vec<Vec<Vec<u8>>> = (0..depth).map(|i| match mode {
                 0 => vec![b"PING".to_vec()],
                 1 => if i % 2 == 0 { vec![b"SET".to_vec(), KEYS[i % 3].to_vec(), format!("v{}", i).into_bytes()] } else { vec![b"GET".to_vec(), KEYS[(i / 2) % 3].to_vec()] },
                 _ => vec![b"GET".to_vec(), KEYS[i % 3].to_vec()],
             }).collect();
-            if mode > 0 && depth > 1100 {
+            if mode > 0 && depth > 300 {
                 continue;
             }
             let frames = cmd_frames(&cmds);
             let stream: Vec<u8> = frames.concat();
             let one_read = Cfg { min_pipeline: 60, batch_threshold: 2, read_size: 1 << 20, max_buffer: 1 << 24 };
             check_wellformed(cx, &one_read, &cmds, &[stream.clone()], "corpus:deep:one-read");
-            if depth <= 300 || mode == 0 {
+            if depth <= 300 || (mode == 0 && depth <= 1025) {
                 check_wellformed(cx, &Cfg::default_like(), &cmds, &[stream.clone()], "corpus:deep:reads-of-8192");
             }
-            if depth <= 257 {
+            if depth <= 257 && mode < 2 {
                 let no_batch = Cfg { min_pipeline: 1 << 40, batch_threshold: 6, read_size: 1 << 20, max_buffer: 1 << 24 };
                 check_wellformed(cx, &no_batch, &cmds, &[stream.clone()], "corpus:deep:gate-closed");
             }
         }
     }
+}
+
+// ---------------------------------------------------------------- the real server over loopback TCP
+
+struct TcpCfg {
+    toml: String,
+    /// None = PerformanceConfig::validate must reject it (the server must refuse to start)
+    expect: Option<Cfg>,
+    label: &'static str,
+}
+
+fn toml_of(shards: usize, cap: usize, prewarm: usize, read: usize, max: usize, minp: usize, thr: usize, conns: usize, pool: usize) -> String {
+    format!("num_shards = {}\n[response_pool]\ncapacity = {}\nprewarm = {}\n[buffers]\nread_size = {}\nmax_size = {}\n[batching]\nmin_pipeline_buffer = {}\nbatch_threshold = {}\n[connection_pool]\nmax_connections = {}\nbuffer_pool_size = {}\n",
+        shards, cap, prewarm, read, max, minp, thr, conns, pool)
+}
+
+/// `OptimizedRedisServer::new(addr).run()` — the accept loop, the configuration path
+/// (PERF_CONFIG_PATH → from_env → from_file → validate → ConnectionConfig::from_perf_config, the
+/// server-wide ConnectionPool, ShardedActorState::with_perf_config) — over loopback TCP.  The kernel
+/// decides how the bytes are cut into reads; for well-formed pipelines that cannot matter
+/// (`segmentation_independent`), so the oracle needs no knowledge of it: every connection must be
+/// answered as by the in-process handler on a roomy configuration, also a client that sends a deep
+/// pipeline in one write and WAITS for all replies without closing.
+fn tcp_end_to_end(cx: &mut Cx) {
+    use tokio::io::{AsyncReadExt, AsyncWriteExt};
+    let dir = cx.out.dir.clone();
+    let cases = vec![
+        TcpCfg { toml: toml_of(2, 4, 1, 16, 64, 0, 1, 2, 1), expect: Some(Cfg { min_pipeline: 0, batch_threshold: 1, read_size: 16, max_buffer: 64 }), label: "small-buffers" },
+        TcpCfg { toml: toml_of(1, 1, 0, 8192, 8192, 60, 2, 1, 1), expect: Some(Cfg { min_pipeline: 60, batch_threshold: 2, read_size: 8192, max_buffer: 8192 }), label: "max-equals-read" },
+        TcpCfg { toml: "this is = not [ toml".into(), expect: Some(Cfg { min_pipeline: 60, batch_threshold: 2, read_size: 8192, max_buffer: 512 * 1024 * 1024 }), label: "unparsable-file-means-defaults" },
+        TcpCfg { toml: "".into(), expect: Some(Cfg { min_pipeline: 60, batch_threshold: 2, read_size: 8192, max_buffer: 512 * 1024 * 1024 }), label: "empty-file-means-defaults" },
+        TcpCfg { toml: "<no file>".into(), expect: Some(Cfg { min_pipeline: 60, batch_threshold: 2, read_size: 8192, max_buffer: 512 * 1024 * 1024 }), label: "missing-file-means-defaults" },
+        TcpCfg { toml: toml_of(3, 4, 1, 16, 64, 0, 1, 2, 1), expect: None, label: "invalid:shards-not-power-of-two" },
+        TcpCfg { toml: toml_of(0, 4, 1, 16, 64, 0, 1, 2, 1), expect: None, label: "invalid:shards-zero" },
+        TcpCfg { toml: toml_of(512, 4, 1, 16, 64, 0, 1, 2, 1), expect: None, label: "invalid:shards-above-256" },
+        TcpCfg { toml: toml_of(2, 0, 0, 16, 64, 0, 1, 2, 1), expect: None, label: "invalid:response-pool-capacity-zero" },
+        TcpCfg { toml: toml_of(2, 4, 5, 16, 64, 0, 1, 2, 1), expect: None, label: "invalid:prewarm-above-capacity" },
+        TcpCfg { toml: toml_of(2, 4, 1, 0, 64, 0, 1, 2, 1), expect: None, label: "invalid:read-size-zero" },
+        TcpCfg { toml: toml_of(2, 4, 1, 16, 15, 0, 1, 2, 1), expect: None, label: "invalid:max-below-read" },
+        TcpCfg { toml: toml_of(2, 4, 1, 16, 64, 0, 1, 0, 1), expect: None, label: "invalid:max-connections-zero" },
+        TcpCfg { toml: toml_of(2, 4, 1, 16, 64, 0, 1, 2, 0), expect: None, label: "invalid:buffer-pool-size-zero" },
+    ];
+    let victim: Vec<Vec<Vec<u8>>> = vec![vec![b"SET".to_vec(), b"k".to_vec(), b"v".to_vec()], vec![b"GET".to_vec(), b"k".to_vec()], vec![b"PING".to_vec()], vec![b"ECHO".to_vec(), b"a\r\nb".to_vec()]];
+    let deep: Vec<Vec<Vec<u8>>> = (0..300).map(|i| if i % 3 == 0 { vec![b"PING".to_vec()] } else if i % 3 == 1 { vec![b"SET".to_vec(), b"k".to_vec(), format!("{}", i).into_bytes()] } else { vec![b"GET".to_vec(), b"k".to_vec()] }).collect();
+    let twin_cfg = Cfg { min_pipeline: 1 << 40, batch_threshold: 1 << 20, read_size: 8192, max_buffer: 1_000_000 };
+    let mut port = 21000 + (std::process::id() as u16 % 20000);
+    for (ci, case) in cases.iter().enumerate() {
+        let path = dir.join(format!("perf_config_{}.toml", ci));
+        if case.toml != "<no file>" {
+            std::fs::write(&path, &case.toml).expect("write toml");
+        }
+        std::env::set_var("PERF_CONFIG_PATH", &path);
+        cx.out.count(&format!("tcp:config:{}", case.label));
+        let rt = tokio::runtime::Builder::new_multi_thread().worker_threads(2).enable_all().build().expect("runtime");
+        let mut started: Option<u16> = None;
+        let mut refused: Option<String> = None;
+        for _attempt in 0..20 {
+            port = if port >= 64000 { 21000 } else { port + 1 };
+            let addr = format!("127.0.0.1:{}", port);
+            let a2 = addr.clone();
+            let h = rt.spawn(async move { redis_sim::production::OptimizedRedisServer::new(a2).run().await.map_err(|e| e.to_string()) });
+            // either the server comes up (connect succeeds) or run() returns an error
+            let up = rt.block_on(async {
+                for _ in 0..300 {
+                    if h.is_finished() {
+                        return false;
+                    }
+                    if tokio::net::TcpStream::connect(&addr).await.is_ok() {
+                        return true;
+                    }
+                    tokio::time::sleep(std::time::Duration::from_millis(10)).await;
+                }
+                false
+            });
+            if up {
+                started = Some(port);
+                break;
+            }
+            let msg = rt.block_on(async { match tokio::time::timeout(std::time::Duration::from_secs(2), h).await { Ok(Ok(Err(e))) => e, Ok(Ok(Ok(()))) => "run returned Ok".into(), Ok(Err(e)) => format!("task: {}", e), Err(_) => "no answer".into() } });
+            if msg.to_lowercase().contains("address") || msg.contains("in use") {
+                continue; // the port is taken (another builder): next one
+            }
+            refused = Some(msg);
+            break;
+        }
+        let replay = |what: &str, obs: &str| json!({"perf_config_toml": case.toml, "case": case.label, "observed": obs, "expected": what});
+        match (&case.expect, started, &refused) {
+            (None, Some(_), _) => {
+                cx.out.violation(&format!("C04:config:invalid-accepted:{}", case.label), "the server starts with a configuration PerformanceConfig::validate must reject", replay("run() returns an error", "the server accepts connections"));
+                rt.shutdown_background();
+                continue;
+            }
+            (None, None, Some(_)) => {
+                cx.out.count("tcp:invalid-config-refused");
+                rt.shutdown_background();
+                continue;
+            }
+            (Some(_), None, r) => {
+                cx.out.violation(&format!("C04:tcp:server-did-not-start:{}", case.label), "the server did not come up with a legal configuration", replay("the server accepts connections", &format!("{:?}", r)));
+                rt.shutdown_background();
+                continue;
+            }
+            (None, None, None) => {
+                cx.out.violation(&format!("C04:tcp:server-did-not-start:{}", case.label), "no port could be bound and no error was returned", replay("an error from validate", "nothing"));
+                rt.shutdown_background();
+                continue;
+            }
+            (Some(_), Some(_), _) => {}
+        }
+        let cfg = case.expect.clone().unwrap();
+        let addr = format!("127.0.0.1:{}", started.unwrap());
+        // connections one after the other over the server-wide pool: a client that leaves mid-frame,
+        // a pipeline in pieces, the same in one write, a deep pipeline in ONE write with the client WAITING
+        let mid = frame(&[b"GET", b"abcde"]);
+        let plans: Vec<(&str, Vec<Vec<Vec<u8>>>, Vec<Vec<u8>>, bool)> = vec![
+            ("leaves-mid-frame", vec![], vec![mid[..mid.len() - 4].to_vec()], false),
+            ("pipeline-in-pieces", victim.clone(), cmd_frames(&victim), true),
+            ("pipeline-one-write", victim.clone(), vec![cmd_frames(&victim).concat()], true),
+            ("deep-one-write-client-waits", deep.clone(), vec![cmd_frames(&deep).concat()], true),
+            ("pipeline-byte-by-byte", victim.clone(), cmd_frames(&victim).concat().iter().map(|b| vec![*b]).collect(), true),
+        ];
+        for (pname, cmds, writes, check) in plans {
+            let total: usize = writes.iter().map(|w| w.len()).sum();
+            if cfg.max_buffer < 1000 && pname.starts_with("deep") && cfg.read_size > cfg.max_buffer {
+                continue;
+            }
+            let expect_n = cmds.len();
+            let a = addr.clone();
+            let w2 = writes.clone();
+            let got: Result<Vec<u8>, String> = rt.block_on(async move {
+                let mut st = tokio::net::TcpStream::connect(&a).await.map_err(|e| e.to_string())?;
+                let _ = st.set_nodelay(true);
+                let mut acc: Vec<u8> = Vec::new();
+                for w in &w2 {
+                    st.write_all(w).await.map_err(|e| e.to_string())?;
+                    tokio::task::yield_now().await;
+                }
+                // the client WAITS (does not close) until it has all replies, at most 5 s
+                let mut buf = vec![0u8; 65536];
+                let deadline = tokio::time::Instant::now() + std::time::Duration::from_secs(5);
+                while decode_replies(&acc).0.len() < expect_n {
+                    match tokio::time::timeout_at(deadline, st.read(&mut buf)).await {
+                        Ok(Ok(0)) => break,
+                        Ok(Ok(n)) => acc.extend_from_slice(&buf[..n]),
+                        Ok(Err(e)) => return Err(e.to_string()),
+                        Err(_) => break,
+                    }
+                }
+                drop(st);
+                Ok(acc)
+            });
+            cx.out.count(&format!("tcp:connection:{}", pname));
+            if !check {
+                // give the server a moment to release the buffers of the connection that left
+                rt.block_on(async { tokio::time::sleep(std::time::Duration::from_millis(20)).await });
+                continue;
+            }
+            let acc = match got {
+                Ok(a) => a,
+                Err(e) => {
+                    cx.out.violation(&format!("C04:tcp:io-error:{}", pname), "the TCP connection to the real server failed", json!({"case": case.label, "connection": pname, "error": e}));
+                    continue;
+                }
+            };
+            let (vals, rest) = decode_replies(&acc);
+            let op = format!("K {} {} {} {} {} {}", cfg.min_pipeline, cfg.batch_threshold, hl_token(), cfg.read_size, cfg.max_buffer.min(1 << 40), hex(&writes.concat()));
+            cx.out.op(op.clone(), format!("n={} end=eof{}", vals.len(), if rest > 0 { format!(" undecoded={}", rest) } else { String::new() }));
+            cx.out.case(&op, true);
+            let t = cx.runner.run(&twin_cfg, &cmd_frames(&cmds));
+            let (tvals, _) = decode_replies(&t.written);
+            let rp = json!({"perf_config_toml": case.toml, "case": case.label, "connection": pname, "bytes_sent": total, "commands": expect_n, "replies": vals.len(), "first_replies": vals.iter().take(6).map(|v| v.show()).collect::<Vec<_>>(), "expected_first": tvals.iter().take(6).map(|v| v.show()).collect::<Vec<_>>()});
+            if vals.len() < expect_n {
+                cx.out.violation("C04:tcp:reply-withheld", "a client that sent a well-formed pipeline over TCP and waits for its replies (without closing) did not receive one reply per command within 5 s", rp);
+            } else if vals != tvals || rest != 0 {
+                cx.out.violation("C04:tcp:reply-differs-from-in-process", "over TCP (accept loop, configuration from PERF_CONFIG_PATH, server-wide buffer pool) a pipeline is answered differently from the in-process handler", rp);
+            }
+        }
+        rt.shutdown_background();
+    }
+    std::env::remove_var("PERF_CONFIG_PATH");
 }
 
 /// correspondence only: the real handler vs the model on the same configuration and segments
@@ -1859,14 +2086,23 @@ fn run_inner(a: &Args) {
     crate::c15::install_silent_panic_hook();
     let mut cx = Cx { out: Out::new(&a.out), runner: Runner::new() };
     let mut rng = Rng::new(a.seed);
+    let t0 = std::time::Instant::now();
+    let mut lap = |name: &str| eprintln!("[c04 timing] {} at {:.1}s", name, t0.elapsed().as_secs_f64());
     fixed_corpus(&mut cx);
+    lap("fixed");
     deep_corpus(&mut cx);
+    lap("deep");
     boundary_corpus(&mut cx);
+    lap("boundary");
     overflow_corpus(&mut cx);
     pooled_corpus(&mut cx);
     write_corpus(&mut cx);
+    lap("overflow+pooled+write");
     let variants = source_enumeration(&mut cx);
     any_corpus(&mut cx, &variants);
+    lap("any");
+    tcp_end_to_end(&mut cx);
+    lap("tcp");
     // deterministic sweep: GET/SET runs of depth 1..7 around both thresholds, whole / per-command / 1-byte
     for depth in 1..=7usize {
         for mode in 0..2 {
@@ -1900,8 +2136,9 @@ fn run_inner(a: &Args) {
             any_case(&mut cx, &mut rng, &variants);
             continue;
         }
-        let cfg = config(&mut rng);
+        let mut cfg = config(&mut rng);
         let (cmds, stream, bounds) = gen_pipeline(&mut rng);
+        tame(&mut cfg, &cmds);
         if rng.chance(1, 5) {
             let mut cfg = cfg.clone();
             cfg.max_buffer = 1_000_000; // the overflow guard is exercised by the well-formed cases
